@@ -12,6 +12,10 @@ DESCR = {
                          "generated/DriverGen.v; the refinement generated code -> model (proofs/DriverTie.v, for all arguments) is "
                          "compiled with the property's theorem file; one case per translated function"),
     "translate_core": ("G:tracker source translator", "see core_units.g_unit"),
+    "translate_finish": ("G:finish_search source translator",
+                         "ast translation (harness/pytrans.py, fail-closed) of Search.finish_search (search.py) into generated/FinishGen.v over the "
+                         "record of what it reads and publishes; the converter calls are the model's functions behind returnNoneIfArgNone (pinned by "
+                         "digest); proofs/FinishTie.v proves the generated finish_search equal to Driver.finish_search"),
     "translate_smbo": ("G:SMBO bookkeeping source translator",
                        "ast translation (harness/pytrans.py, fail-closed) of the wrappers of SMBO.track_X_sample / track_y_sample and of the "
                        "bodies of SMBO.evaluate / evaluate_init (smb_opt/smbo.py) into generated/SmboGen.v; the decorator lists of init_pos, "
@@ -76,7 +80,7 @@ def g_unit(ctx, modname):
     return u
 
 
-ALL_TRANSLATORS = ["translate_core", "translate_driver", "translate_grid", "translate_search", "translate_memory", "translate_results", "translate_coreopt", "translate_init", "translate_smbo"]
+ALL_TRANSLATORS = ["translate_core", "translate_driver", "translate_grid", "translate_search", "translate_memory", "translate_results", "translate_coreopt", "translate_init", "translate_smbo", "translate_finish"]
 
 
 def refresh_all(ctx):
